@@ -36,6 +36,7 @@ def evalLine (line : String) : Option Verdict :=
     | "C18" :: rest => some (evalSession "C18" rest outs)
     | "C19" :: rest => some (evalC19Flight rest outs)
     | "C07" :: rest => some (evalBurst rest outs)
+    | "C03" :: rest => some (evalBurst rest outs)
     | "C04" :: rest => some (evalParFail "C04" rest outs)
     | "C08" :: rest => some (evalParFail "C08" rest outs)
     | "C14" :: rest => some (evalParFail "C14" rest outs)
